@@ -29,10 +29,10 @@ RULE = ("cases: package configurations; executions: one plot() call per (n selec
         "(configuration, n selected, mode, form) with more than one curve or more than one selected fit")
 ASSUMPTIONS = ["results come from cube packages fitted at tabulated wavelengths", "tolerance 2e-3 for the rounded physical constants"]
 REQUIRED_CLASSES = ['mode-interp', 'mode-largest', 'mode-largest+smallest', 'mode-all', 'multi-aperture', 'single-aperture', 'mixed-theta', 'form-object', 'form-file', 'five-fits',
-                    'distance-dependent', 'distance-independent', 'cube-wav-ascending', 'several-sources-one-call']
+                    'distance-dependent', 'distance-independent', 'cube-wav-ascending', 'several-sources-one-call', 'apertures-stored-decreasing', 'cube-in-Jy', 'second-package-same-names']
 TIMEOUT = {'quick': 600, 'thorough': 3000}
 
-AXES = {'n_ap': [3, 1], 'sord': ['wav-desc', 'wav-asc'], 'theta': ['mixed', 'uniform'], 'memmap': [True, False], 'avr': [(0.0, 5.0), (2.0, 2.0)]}
+AXES = {'n_ap': [3, 1], 'sord': ['wav-desc', 'wav-asc'], 'theta': ['mixed', 'uniform'], 'memmap': [True, False], 'avr': [(0.0, 5.0), (2.0, 2.0)], 'ap_order': ['inc', 'dec'], 'funit': ['mJy', 'Jy']}
 WAV = np.array([24.0, 8.0, 4.5, 2.2, 1.0])
 BANDS = [0, 2, 4]
 MODES = ['interp', 'largest', 'largest+smallest', 'all']
@@ -70,7 +70,15 @@ def run_case(ctx, case, rec, d):
     os.makedirs(md)
     pkgwriter.write_conf(md, apdep, logd_step=0.1, version=2)
     pkgwriter.write_parameters(md, names, {'par1': np.arange(5) + 0.5})
-    pkgwriter.write_cube(md, names, WAV[::order], val[:, :, ::order], unc=val[:, :, ::order] * 0.01, apertures_au=aps if (apdep or n_ap > 1) else None)
+    # the aperture table may be stored largest first, and the cube in Jy instead of mJy: same physical package
+    aord = slice(None, None, -1) if (case.get('ap_order') == 'dec' and n_ap > 1) else slice(None)
+    fsc, fun = (1e-3, 'Jy') if case.get('funit') == 'Jy' else (1.0, 'mJy')
+    if case.get('ap_order') == 'dec' and n_ap > 1:
+        rec.cls('apertures-stored-decreasing')
+    if fun == 'Jy':
+        rec.cls('cube-in-Jy')
+    pkgwriter.write_cube(md, names, WAV[::order], val[:, aord, ::order] * fsc, unc=val[:, aord, ::order] * 0.01 * fsc, unit=fun,
+                         apertures_au=aps[aord] if (apdep or n_ap > 1) else None)
     theta = [1.0, 3.0, 2.0] if case['theta'] == 'mixed' else [1.0, 1.0, 1.0]
     if case['theta'] == 'mixed':
         rec.cls('mixed-theta')
@@ -250,5 +258,45 @@ def run_case(ctx, case, rec, d):
                     break
             if bad:
                 rec.violation('plot|%s|curve-vs-stored|several-sources' % mode, sub, {'problem': bad})
+    # ---- a second package with the SAME model names in another row order (and other fluxes), fitted and plotted in the
+    # same process: its curves must be its own models
+    md2 = os.path.join(d, 'pkg2')
+    os.makedirs(md2)
+    names2 = names[::-1]
+    val2 = val[::-1] * np.linspace(0.6, 1.9, 5)[:, None, None]
+    pkgwriter.write_conf(md2, apdep, logd_step=0.1, version=2)
+    pkgwriter.write_parameters(md2, names2, {'par1': np.arange(5) + 0.5})
+    pkgwriter.write_cube(md2, names2, WAV[::order], val2[:, :, ::order], unc=val2[:, :, ::order] * 0.01, apertures_au=aps if (apdep or n_ap > 1) else None)
+    try:
+        ft2 = Fitter([WAV[b] * u.micron for b in BANDS], np.array(theta) * u.arcsec, md2, extinction_law=law, av_range=list(case['avr']),
+                     distance_range=np.array([0.6, 2.5]) * u.kpc, use_memmap=case['memmap'])
+        info2 = ft2.fit(fc.make_source([1, 1, 1], src_flux, 0.1 * src_flux, name='src2'))
+        stored2 = np.asarray(info2.model_fluxes, float).copy()
+        figs2 = plot(info2, output_dir=None, select_format=('N', 3), sed_type='interp', memmap=case['memmap'])
+        segs2 = [np.asarray(sg) for sg in figs2['src2']['lines'].get_segments()]
+        rec.trans()
+        rec.cls('second-package-same-names')
+        bad = None if len(segs2) == 3 else '%d curves, expected 3' % len(segs2)
+        for i in range(3):
+            if bad:
+                break
+            cur = segs2[3 - 1 - i]
+            pred = 10 ** (stored2[i] - 26.0 + np.log10(299792458.0 / (WAV[BANDS] * 1e-6)))
+            for jb, b in enumerate(BANDS):
+                kx = int(np.argmin(np.abs(cur[:, 0] - WAV[b])))
+                rec.ev()
+                allow = 2e-3
+                if n_ap > 1 and theta[jb] * 10 ** float(np.asarray(info2.sc, float)[i]) * 1000.0 > aps[-1]:
+                    m_idx = names2.index(str(np.asarray(info2.model_name)[i]).strip())
+                    v = val2[m_idx, :, b]
+                    allow += abs((v[-1] - v[-2]) / (aps[-1] - aps[-2]) * 0.001 * aps[-1] / v[-1])
+                if abs(cur[kx, 1] / pred[jb] - 1.0) > allow:
+                    bad = 'second package, fit rank %d, filter %r micron: curve %r, stored prediction %r' % (i + 1, WAV[b], cur[kx, 1], pred[jb])
+                    break
+        if bad:
+            rec.violation('plot|interp|curve-vs-stored|second-package', {'second_package': True}, {'problem': bad})
+    except Exception as e:
+        from mc.runner import exc_signature
+        rec.violation('plot|second-package|' + exc_signature(e), {'second_package': True}, {'type': type(e).__name__, 'msg': str(e)[:300]})
     if case.get('_deviations') == 0:
         rec.sample({'config': {kk: v for kk, v in case.items()}, 'filters_micron': WAV[BANDS], 'theta_arcsec': theta, 'calls': 'n selected {1,3,5} x modes %s x {object,file}' % MODES})
